@@ -1743,7 +1743,10 @@ class ProductSpaceConstWeighting(ConstWeighting):
         norm : float
             The norm of the element.
         """
-        if self.exponent == 2.0:
+        if len(x) == 0:
+            # Empty product, `np.linalg.norm` raises for exponent inf
+            return 0.0
+        elif self.exponent == 2.0:
             norm_squared = self.inner(x, x).real  # TODO: optimize?!
             return np.sqrt(norm_squared)
         else:
@@ -1770,6 +1773,9 @@ class ProductSpaceConstWeighting(ConstWeighting):
         dist : float
             The distance between the elements.
         """
+        if len(x1) == 0:
+            return 0.0
+
         dnorms = np.fromiter(
             ((x1i - x2i).norm() for x1i, x2i in zip(x1, x2)),
             dtype=np.float64, count=len(x1))
